@@ -509,6 +509,10 @@ def run_result(c, mods):
         if fail is None:
             fail = ["result-%s-differs-from-row-stream" % what, detail]
 
+    def sc(v):
+        # a NULL first column and "no row" are both reported as None by scalar()
+        return None if v is None else ("s", v)
+
     closed = False
     for op in c["ops"]:
         n = op[0]
@@ -537,13 +541,13 @@ def run_result(c, mods):
             e = "E:MultipleResultsFound" if len(rest) > 1 else (rest[0] if rest else "E:NoResultFound")
             adv, closed = 0, True
         elif n == "scalar":
-            e = ("s", rest[0][0]) if rest else None
+            e = sc(rest[0][0]) if rest else None
             adv, closed = 0, True
         elif n == "scalar_one":
-            e = "E:MultipleResultsFound" if len(rest) > 1 else (("s", rest[0][0]) if rest else "E:NoResultFound")
+            e = "E:MultipleResultsFound" if len(rest) > 1 else (sc(rest[0][0]) if rest else "E:NoResultFound")
             adv, closed = 0, True
         elif n == "scalar_one_or_none":
-            e = "E:MultipleResultsFound" if len(rest) > 1 else (("s", rest[0][0]) if rest else None)
+            e = "E:MultipleResultsFound" if len(rest) > 1 else (sc(rest[0][0]) if rest else None)
             adv, closed = 0, True
         else:
             raise ValueError(n)
